@@ -33,8 +33,11 @@ import store_scale  # noqa: E402
 META = {
     "title": "The storage manager never hands out or reclaims live memory",
     "level": "model_checking",
-    "technique": "TLC: exhaustive model of the property (StoreAbs) and of store.c's algorithms refining it (StoreImpl); "
-                 "every short history exported by TLC replayed into the real allocator and long random histories, "
+    "technique": "TLC: exhaustive model of the property (StoreAbs) and of store.c's algorithms refining it (StoreImpl, with the "
+                 "collections that start inside an operation; StoreTree: the free tree and its node / carrier pools); "
+                 "every short history exported by TLC replayed into the real allocator, long random histories, and "
+                 "behaviours exported at the real constants (hundreds of distinct free sizes; every request size next to a "
+                 "page-count boundary; every modelled situation of a nested collection), "
                  "all validated as behaviours of StoreAbs by TLC (TraceStore)",
     "design_ref": "DESIGN.md §3.4, §5 C10, Appendix A, D",
     "level_text": "explicit-state model checking of the specification at small constants; the implementation is bound by "
@@ -726,6 +729,12 @@ def run(chk, tier):
         "in which a collection ran",
         "x86-64 Linux, 8-byte alignment = alignof(MostAlignedType); addresses relative to the initial program break",
         "roots are words in static data and in a live stack frame; stale words elsewhere may keep garbage alive (allowed)",
+        "constants of store.c on x86-64 used by StoreTreeGen / StoreSect: MixedBTreeT 16, node 776 bytes, carrier 16 bytes, page "
+        "4096, SectionHeadSize 32, MxMemHeadSize 32, quantum 256 (the page counts they predict are compared with what "
+        "stoShowDetail reports, as drift information)",
+        "a collection inside stoFree / stoAlloc is provoked by using up the free heap pages (script command D) in automatic "
+        "mode, or by hook H1b (hooks/H1b-pagesget-gc.diff) when the tree has it; situations in which the unchanged tree is "
+        "known to fail are separate scripts (known_findings.jsonl, mode reent-known)",
     ]
     # the model runs and the runs against the real allocator are independent: do them side by side
     # (C10_STAGES=replay,random restricts a run to some stages; used only by the self-tests with mutated
@@ -849,4 +858,30 @@ violated (StoreAbs.Collect refuses the survivor set).  StoreAbsMC: -coverage 1 s
 StoreImpl: 25 sub-case labels each shown reachable by a ProbeInv violation.
 
 Unchanged tree: quick held with VERIF_SEED 20261004 and 7; no finding.
+
+Extension (2026-10-04, later): housekeeping structures at scale, fresh sections of large requests, collections that
+start inside an operation (stage D, scale_runs / scale_apply; C10_STAGES=scale runs it alone).
+ Seeded changes (bin/seedtest, quick tier):
+  C10-1  stoAllocInner carves one node too many from a housekeeping page   caught  stage D, tree behaviours (Fault / Lost)
+  C10-2  fresh section sized without the per-quantum information bytes     caught  stage D, fresh-section sweep (8 x "Alloc:
+         block smaller than requested") and random histories
+  C10-3  sweep clears marks of the wrong number of quanta                  caught  replay, random (as before)
+  C09-3  piecePutMixed: isFree set before mxmemLink                        caught  stage D, collection inside stoFree
+         (situation free / garbage piece in front; Fault sig 11); 14 of the 28 scripts fail when run one by one
+ Further mutations tried against stage D alone (scratch worktrees, removed):
+  N1  pieceGetMixed: SectionHeadSize left out of nb (neighbour of C10-2)   caught  sweep: "Alloc: block smaller than requested"
+  N5  btreeUnsplitChild copies one branch too few (only interior nodes, i.e. a tree of height 3)
+                                                                           caught  t530 behaviour: Fault
+  N2  sectQmCount with one byte more in the numerator                      not caught: equivalent for all page counts <= 24
+ Model-side: StoreTree (T = 2) every history over 5 sizes holds (65 833 states); the behaviours at the real constants
+ predicted the number of B-tree pages and carrier pages the real allocator reported (stoShowDetail) in all 6 quick
+ scenarios (drift 0).  StoreImplReent holds with the known defects cut off (14 556 states); StoreImplReentSwapProbe,
+ StoreImplReentReturnProbe, StoreImplReentSplitProbe are each violated (the check requires it).
+ Machinery bugs found on the way: the driver's reference images for fast compares were separate writable mappings --
+ os_unix.c's osMemMap has room for 30 writable mappings (static mmv[MAX_MMAPS], no bound check) and the collector
+ crashed; they are now one mapping that is read-only except while being extended.  fault() dropped the whole output
+ buffer, so a trace ended with the Fault alone; it now keeps the complete events.
+ Findings on the unchanged tree (known_findings.jsonl, mode reent-known; candidate patch
+ hooks/candidate-C10-no-collection-inside-index-update.diff makes all four scripts pass): a collection started by pagesGet
+ inside stoFree / stoAlloc (page request of mxmemLink, no page free, automatic mode) damages the free index.
 """
